@@ -63,6 +63,10 @@ func C19(seed int64, n int) (*cq.Set, *cq.Interner) {
 		set.Cases = append(set.Cases, cq.Case{Term: term, Key: PodKey(a), Nontrivial: denied > 0, Tags: tags,
 			Sample: map[string]interface{}{"desc": nm.Desc, "pod": nm.Pod}, Uses: in.TakeUses()})
 	}
+	if ReplayPod != nil {
+		add(podgen.Named{Desc: "replay", Pod: ReplayPod})
+		return set, in
+	}
 	for _, nm := range podgen.Enumerate() {
 		add(nm)
 	}
